@@ -106,3 +106,73 @@ def run(ck, facts, R, crate):
             else:
                 ck.bad(R, key, "%s: the arm for Pattern::%s neither reads the sub-patterns nor hands the pattern on: what the sub-patterns bind is lost" % (f.short, v), f.where(f.term(tb)))
     ck.floor(R, "aggregate_pattern_arms", n, 12)
+
+
+MPAT = "mimium_lang::ast::MatchPattern"
+
+
+def run_match_patterns(ck, facts, R, crate):
+    """every recursive walk over `ast::MatchPattern` descends into the nested patterns of every aggregate form
+
+    A match pattern is a tree: `Tuple(Vec<MatchPattern>)`, `Constructor(name, Option<Box<MatchPattern>>)`.  The walkers
+    (functions that are handed a `MatchPattern`, dispatch on it and call themselves: the binder collection of the
+    resolver, of the type checker and of the MIR generator, the macro interpreter, the staging encoder) must, in the arm
+    of each form that has nested patterns, reach a walker again — a direct call, a closure created in the arm that
+    calls one, or a walker handed to an adaptor as a function value.  An arm that only looks at the shape of the nested
+    pattern (`if let Some(Variable(x)) = inner`) leaves the variables of a destructured payload unbound."""
+    from ..facts import const_fn
+
+    ck.rule(R, "every self-recursive walker over `MatchPattern` (takes a MatchPattern, dispatches on it): the arm of a form with nested patterns (Tuple, Constructor) reaches a MatchPattern walker again — by a call, through a closure created in the arm, or by handing a walker to an adaptor")
+    adt = facts.adt(MPAT)
+    if adt is None:
+        ck.bad(R, "anchor|MatchPattern", "the enum %s was not found" % MPAT)
+        return
+    agg = sorted(v["n"] for v in adt["variants"] if any("MatchPattern" in ft for _, ft in v["f"]))
+    covs = {}
+    for cov in cover.find_matchers(facts, crate, MPAT):
+        f = cov.fn
+        if f.kind not in ("fn", "assoc") or "::tests" in f.path or "::test::" in f.path or any(d in f.path for d in DERIVES):
+            continue
+        if not any("MatchPattern" in f.local_ty(i) for i in range(1, f.d["argc"] + 1)):
+            continue
+        covs[f.path] = cov
+    walkers = set(covs)
+
+    def calls_walker(g):
+        for _, t in g.calls():
+            if (callee(t) or "") in walkers:
+                return True
+            if any(const_fn(a) in walkers for a in t[5] if a[0] == "c"):
+                return True
+        return False
+
+    n = 0
+    for path, cov in sorted(covs.items()):
+        f = cov.fn
+        fam = facts.family(crate, f.root)
+        if not any((callee(t) or "") == path or any(const_fn(a) == path for a in t[5] if a[0] == "c") for g in fam for _, t in g.calls()):
+            continue  # not recursive: a one-level look at a pattern
+        for v in agg:
+            if v not in cov.primary_handled():
+                continue
+            tb = cov.arm_target(v)
+            if tb is None or cov.arm_diverges(v):
+                continue
+            region = reachable(f, tb, stop=[cov.primary.block])
+            n += 1
+            key = "descend|%s|%s" % (f.short.split("::", 1)[-1] if f.short.startswith("compiler::") else f.short, v)
+            direct = False
+            clos = set()
+            for b in region:
+                t = f.term(b)
+                if t[KIND] == "call" and ((callee(t) or "") in walkers or any(const_fn(a) in walkers for a in t[5] if a[0] == "c")):
+                    direct = True
+                for s in f.stmts(b):
+                    if s[KIND] == "a" and s[5][0] == "agg" and s[5][1][0] == "closure":
+                        clos.add(s[5][1][1])
+            via = any(calls_walker(g) for g in fam if g.path in clos)
+            if direct or via:
+                ck.ok(R, key, {"walker": f.short, "form": v, "how": "call" if direct else "closure"})
+            else:
+                ck.bad(R, key, "%s: the arm for MatchPattern::%s never reaches a pattern walker again: the patterns nested inside it (a destructured constructor payload `P(f, x)`, a tuple inside a tuple) are not visited, so the variables they bind stay unknown to this pass — a name bound there is resolved, typed or bound as if the arm had not introduced it" % (f.short, v), f.where(f.term(tb)))
+    ck.floor(R, "match_pattern_walker_arms", n, 8)
